@@ -260,16 +260,22 @@ def op_notes_text(live, op):
     return "ok"
 
 
-def _shape_with_click(slide):
+def _shape_with_click(slide, which="last"):
     from pptx.enum.shapes import MSO_SHAPE_TYPE
-    return _last(slide, lambda sh: sh.shape_type in (MSO_SHAPE_TYPE.AUTO_SHAPE, MSO_SHAPE_TYPE.TEXT_BOX, MSO_SHAPE_TYPE.PICTURE))
+    kinds = (MSO_SHAPE_TYPE.AUTO_SHAPE, MSO_SHAPE_TYPE.TEXT_BOX, MSO_SHAPE_TYPE.PICTURE)
+    if which == "first":
+        for sh in slide.shapes:
+            if sh.shape_type in kinds:
+                return sh
+        return None
+    return _last(slide, lambda sh: sh.shape_type in kinds)
 
 
 def op_hlink_shape(live, op):
     s = _slide(live, op.get("slide"))
     if s is None:
         return SKIP
-    sh = _shape_with_click(s)
+    sh = _shape_with_click(s, op.get("which", "last"))
     if sh is None:
         return SKIP
     sh.click_action.hyperlink.address = op.get("url")
